@@ -112,11 +112,16 @@ def merge_fns(P):
         if f.crate != CRATE or f.derived or "::tests" in f.path or f.kind not in ("Fn", "AssocFn"):
             continue
         orig = f.sig_output or ""
+        ptys = _param_types(f)
+        if orig == "()":
+            # in-place form: fn(&mut D, E-or-collection-of-E)
+            muts = [peel_ty(t) for t in ptys if t.startswith("&mut ") and peel_ty(t).startswith(TS)]
+            orig = muts[0] if len(muts) == 1 else ""
         a = P.adts.get(orig)
         if not orig.startswith(TS) or a is None or a.kind != "Struct":
             continue
         mentioned = set()
-        for t in _param_types(f):
+        for t in ptys:
             mentioned |= {TS + m for m in _TS_NAME.findall(t)}
         others = mentioned - {orig}
         if orig not in mentioned or len(others) != 1:
@@ -269,7 +274,13 @@ def _r11a_route(P, R):
         if not pushes:
             R.undecided("R11-c", "directive-push", "the DirectiveDefinition arm of %s does not push the definition in a recognised way" % g.path, loc=g.loc())
             continue
-        asis = [n for n in pushes if (_strip(n["args"][-1]) or {}).get("k") == "Path" and _strip(n["args"][-1]).get("local") in bound]
+        def unwrapped(e):
+            # `Variant(def)` / `Wrapper(def)`: a constructor around the value does not change it
+            e = _strip(e)
+            while e is not None and e.get("k") == "Call" and str(e.get("callee_dk", "")).startswith("Ctor") and len(e["args"]) == 1:
+                e = _strip(e["args"][0])
+            return e or {}
+        asis = [n for n in pushes if unwrapped(n["args"][-1]).get("k") == "Path" and unwrapped(n["args"][-1]).get("local") in bound]
         cond = [n for n in pushes if any(x.get("k") in ("If", "Match") and x is not n and _contains(x, n) for x in body)]
         R.check("R11-c", "directive-push", len(asis) == len(pushes) and not cond, "directive definitions pushed as-is",
                 "%s transforms directive definitions before pushing them, or pushes them only under a condition" % g.path, loc=g.loc())
@@ -280,24 +291,35 @@ def _r11a_lists(P, R):
     a registry is identified by its type instantiation, whatever holds it: a local, a struct field, ...)"""
     rg = registry(P)
     roles = {rg.set.path: "registers originals", rg.add.path: "registers extensions", rg.into.path: "is consumed"}
+    origs = {orig for _, orig, _ in merge_fns(P)}
     seen = {}
-    for g in _scope(P):
-        for n in g.walk():
-            if n.get("k") not in ("MethodCall", "Call"):
-                continue
-            cn = call_name(n)
-            if cn not in roles or not call_args(n):
-                continue
-            recv = call_args(n)[0]
-            h, args = _head_args(recv.get("t") or recv.get("ta") or "")
-            if h != rg.list or len(args) < 2:
-                h, args = _head_args(recv.get("ta") or "")
-            if h == rg.list and len(args) >= 2:
-                seen.setdefault((args[-2], args[-1]), set()).add(roles[cn])
+    sc = _scope(P)
+    for _round in range(4):
+        lifted = {}
+        for g in sc:
+            for n in g.walk():
+                if n.get("k") not in ("MethodCall", "Call"):
+                    continue
+                cn = call_name(n)
+                if cn not in roles or not call_args(n):
+                    continue
+                recv = call_args(n)[0]
+                targs = []
+                for k_ in ("t", "ta"):
+                    targs += _head_args(recv.get(k_) or "")[1]
+                kinds = [t for t in targs if t in origs]
+                if kinds:
+                    seen.setdefault(kinds[0], set()).add(roles[cn])
+                elif g.self_adt and g.path not in roles and any(_IDENT.match(t) for t in targs):
+                    # the registry sits inside a generic wrapper (`Wrapper<T>`): the wrapper's method takes over the role
+                    lifted[g.path] = roles[cn]
+        if not lifted:
+            break
+        roles.update(lifted)
     mf = merge_fns(P)
     R.floor("R11-a", "merge functions (by signature)", len(mf), 7)
     for g, orig, ext in mf:
-        got = seen.get((orig, ext), set())
+        got = seen.get(orig, set())
         key = "list:" + orig.split("::")[-1]
         if not got:
             R.undecided("R11-a", key, "no registry of (%s, %s) is used by the resolver in a recognised way" % (orig.split("::")[-1], ext.split("::")[-1]), loc=g.loc())
@@ -306,6 +328,38 @@ def _r11a_lists(P, R):
         R.check("R11-a", key, not missing, "filled with originals and extensions, consumed",
                 "the registry of %s %s but never %s: those items never reach the merged document"
                 % (orig.split("::")[-1], " and ".join(sorted(got)), " / ".join(missing)), loc=_entry(P).loc())
+
+
+def _grown_atoms(h, pv, expr):
+    """atoms that reach `expr` through collections it is made of being *filled* after their creation: `v.push(x)` / `v.extend(xs)`
+    on a local the expression depends on, and calls that receive such a local by `&mut` (provenance follows bindings, not
+    mutation, so an accumulator built by pushes would otherwise look empty)"""
+    deps, todo = set(), [expr]
+    while todo:
+        e = todo.pop()
+        for y in subnodes(e):
+            if y.get("k") == "Path" and "local" in y and y["local"] not in deps:
+                deps.add(y["local"])
+                todo.extend(src for src, _x in pv.src.get(y["local"], []) if src is not None)
+    out = set()
+
+    def base_local(e):
+        e = _strip_deref(e)
+        return e.get("local") if e.get("k") == "Path" else None
+    for n in h.walk():
+        if n.get("k") == "MethodCall" and n["args"] and n["method"] in ("push", "push_back", "extend", "append", "insert", "extend_from_slice") \
+                and base_local(n["recv"]) in deps:
+            for a_ in n["args"]:
+                out |= pv.atoms(a_)
+        elif n.get("k") in ("Call", "MethodCall"):
+            args = call_args(n)
+            lent = [a_ for a_ in args if a_.get("k") == "AddrOf" and a_.get("mut") and base_local(a_) in deps]
+            if lent and call_name(n):
+                out.add(("call", call_name(n)))
+                for a_ in args:
+                    if a_ not in lent:
+                        out |= pv.atoms(a_)
+    return out
 
 
 def _r11a_output(P, R):
@@ -324,7 +378,8 @@ def _r11a_output(P, R):
             reach[h] = P.reachable([f]) if f is not None and f.crate == CRATE and h != e.path else set()
         return target in reach[h]
     for h, d in docs:
-        a = Prov(h).atoms(d)
+        pvh = Prov(h)
+        a = pvh.atoms(d) | _grown_atoms(h, pvh, d)
         refs = {x[1] for x in a if x[0] in ("def", "call")}
         for g, orig, ext in mf:
             ok = g.path in refs or any(reaches(r_, g.path) for r_ in refs)
@@ -359,6 +414,25 @@ def _r11a_output(P, R):
             pv = pv or Prov(h)
             a = pv.atoms(up)
             refs = {x[1] for x in a if x[0] in ("def", "call")}
+            pnames = {x[1] for x in a if x[0] == "param"}
+            if pnames and h.path != e.path:
+                # the value arrives through a parameter (e.g. a per-kind `into_definition(self)`): look at what the callers pass
+                idxs = [j for j, p_ in enumerate(h.params) if p_.get("k") == "Binding" and pv.params.get(p_.get("local")) in pnames]
+                callee_names = {h.path} | ({h.impl_trait + "::" + h.name} if h.impl_trait else set())
+                seen_callers = []
+                for c_ in _scope(P):
+                    cpv = None
+                    for y in c_.walk():
+                        if y.get("k") in ("Call", "MethodCall") and (call_name(y) in callee_names or norm(y.get("callee", "")) in callee_names):
+                            cpv = cpv or Prov(c_)
+                            ca = call_args(y)
+                            for j in idxs:
+                                if j < len(ca):
+                                    at = cpv.atoms(ca[j])
+                                    refs |= {x[1] for x in at if x[0] in ("def", "call")}
+                                    seen_callers.append(not any(x[0] == "param" for x in at) or c_.path == e.path)
+                if seen_callers and all(seen_callers):
+                    a = frozenset(x for x in a if x[0] != "param")
             g = target[0]
             key = "output-merged:" + _tag(g, names)
             if g.path in refs or any(reaches(r_, g.path) for r_ in refs):
@@ -399,6 +473,31 @@ def _inplace_merge(P, R, f, tag, orig, ext, e_fields, grows, pv):
             "%s merges in place but also changes components of the original (%s): their content is lost" % (f.path, dropped), loc=f.loc())
     R.check("R11-b", tag + ":result-literal", not dropped, "result is the original, extended in place",
             "%s merges in place but also changes components of the original (%s)" % (f.path, dropped), loc=f.loc())
+    # the function absorbs *one* extension (its parameter is an E, not a collection of E): then the loop over the extensions is
+    # at its call sites, which must apply it to every extension, unconditionally
+    single = any(peel_ty(t) == ext for t in _param_types(f))
+    if single:
+        names_ = {f.path} | ({f.impl_trait + "::" + f.name} if f.impl_trait else set())
+        sites = []
+        for c_ in _scope(P):
+            for i, (y, _p) in enumerate(c_.nodes()):
+                if y.get("k") in ("Call", "MethodCall") and (call_name(y) in names_ or norm(y.get("callee", "")) in names_):
+                    sites.append((c_, i))
+        if not sites:
+            R.undecided("R11-b", tag + ":every-extension", "%s absorbs one extension at a time, but no call site of it was found" % f.path, loc=f.loc())
+        else:
+            bad = []
+            for c_, i in sites:
+                ctx = enclosing_contexts(c_, i)
+                if not any(c[0] == "loop" for c in ctx):
+                    bad.append("%s calls it outside a loop" % short(c_.path))
+                elif any(c[0] in ("if-then", "if-else", "let-else") or (c[0] == "arm" and c[1] is not None and not str(c[1].get("src", "")).startswith("ForLoop")) for c in ctx):
+                    bad.append("%s calls it under a condition" % short(c_.path))
+                loops = [c[1] for c in ctx if c[0] == "loop"]
+                if loops and any(y.get("k") == "Break" and not str(y.get("x", "")).startswith("desugar") for y in subnodes(loops[0])):
+                    bad.append("the loop in %s can stop early" % short(c_.path))
+            R.check("R11-b", tag + ":every-extension", not bad, "applied to every extension, in iteration order",
+                    "%s is not applied to every extension (%s): the skipped extensions are lost" % (f.path, "; ".join(bad)), loc=f.loc())
     for name in e_fields:
         key = "%s:concat:%s" % (tag, name)
         mine = [(i, n) for i, n in grows if _strip_deref(n["recv"])["field"] == name]
@@ -421,7 +520,7 @@ def _inplace_merge(P, R, f, tag, orig, ext, e_fields, grows, pv):
             ctx = enclosing_contexts(f, i)
             if any(c[0] in ("if-then", "if-else", "let-else") or (c[0] == "arm" and c[1] is not None and not str(c[1].get("src", "")).startswith("ForLoop")) for c in ctx):
                 why.append("the append is conditional")
-            if not any(c[0] == "loop" for c in ctx):
+            if not any(c[0] == "loop" for c in ctx) and not single:
                 why.append("the append is not inside the loop over the extensions")
         if len(mine) > 1:
             why.append("`%s` is appended to %d times" % (name, len(mine)))
@@ -571,6 +670,10 @@ def _is_option_field(e, pv, adt, field, depth=0):
         return e.get("field") == field and norm(e.get("adt", "")) == adt
     if e.get("k") == "Path" and "local" in e and depth < 3:
         srcs = pv.src.get(e["local"], [])
+        me = ("field", adt, field)
+        if srcs and peel_ty(e.get("t") or "").startswith("core::option::Option<") \
+                and all(me in x_ and not any(y_[0] == "field" and y_[1] == adt and y_ != me for y_ in x_) for _s, x_ in srcs):
+            return True  # bound by a struct pattern `Entry { field, .. }`
         if len(srcs) == 1 and srcs[0][0] is not None and not srcs[0][1]:
             return _is_option_field(srcs[0][0], pv, adt, field, depth + 1)
     return False
@@ -647,6 +750,41 @@ def _presence(ctx, pv, adt, field):
         if v == {"None"}:
             return "present", True
     return None, False
+
+
+def _prior_states(fn, idx, pv, adt, field):
+    """states of the Option field established by *earlier* statements of the enclosing blocks that leave the function when their
+    test succeeds: after `if let Some(x) = e.f { return .. }` the field is absent, after `let Some(x) = e.f else { return .. }`
+    it is present"""
+    acc = fn.nodes()
+    out = set()
+    child, p = idx, acc[idx][1]
+    while p >= 0:
+        n = acc[p][0]
+        if n.get("k") == "Block":
+            before = []
+            for st in n.get("stmts", []):
+                if _contains(st, acc[child][0]):
+                    break
+                before.append(st)
+            for st in before:
+                e = st.get("e") if st.get("k") == "Stmt" else st
+                if e is None:
+                    continue
+                if e.get("k") == "If" and "else" not in e and str((e.get("then") or {}).get("t")) == "!":
+                    s_, ex = _option_test(e["cond"], pv, adt, field)
+                    if s_ and ex:
+                        out.add(_FLIP[s_])
+                elif e.get("k") == "Let" and "els" in e and e.get("init") is not None and _is_option_field(e["init"], pv, adt, field):
+                    v, _c = arm_variants({"arms": [{"pat": e["pat"]}]})
+                    if v == {"Some"}:
+                        out.add("present")
+                    elif v == {"None"}:
+                        out.add("absent")
+        elif n.get("k") == "Closure":
+            break
+        child, p = p, acc[p][1]
+    return out
 
 
 def _branch_of(ctx):
@@ -748,10 +886,12 @@ def _r11d_set(P, R, rg):
 
 
 def _key_check(P, R, rg, g, pv, own, role):
-    """the registry is keyed by the element's own name"""
+    """the registry is keyed by the element's own name (whichever map-typed field of the list does the look-up)"""
+    maps = {n_ for n_, t_ in rg.list_adt.field_types().items() if "Map<" in t_}
     keyed = [n for n in g.walk() if n.get("k") == "MethodCall" and n["args"]
              and n.get("method") in ("entry", "get", "get_mut", "insert", "contains_key", "get_or_insert_with", "get_index_of", "get_full", "get_full_mut")
-             and has_field(pv.atoms(n["recv"]), rg.list, rg.map_field) and not any(a[0] == "field" and a[1] == rg.entry for a in pv.atoms(n["recv"]))]
+             and any(a[0] == "field" and a[1] == rg.list and a[2] in maps for a in pv.atoms(n["recv"]))
+             and "Map<" in peel_ty(n["recv"].get("t") or "") and not any(a[0] == "field" and a[1] == rg.entry for a in pv.atoms(n["recv"]))]
     if not keyed:
         R.undecided("R11-d", role + ":key", "%s does not look its entry up in a recognised way" % g.path, loc=g.loc())
         return
@@ -785,7 +925,7 @@ def _r11d_into(P, R, rg):
     R.floor("R11-d", "error constructions in into_original_and_extensions", len(errs), 1)
     for i, n in errs:
         ctxs = [c for c in enclosing_contexts(io, i) if c[0] in ("arm", "if-then", "if-else", "let-else") and not _is_try(c)]
-        ostate = {_presence(c, pv, rg.entry, rg.orig_field)[0] for c in ctxs} - {None}
+        ostate = ({_presence(c, pv, rg.entry, rg.orig_field)[0] for c in ctxs} | _prior_states(io, i, pv, rg.entry, rg.orig_field)) - {None}
         # is there an extension on this path?  enclosing arm over `extensions…next()`-like Option, or the error's payload is taken
         # from an element of `extensions`
         estate = set()
